@@ -106,6 +106,34 @@ def run_explored(cfg):
     return r.dump()
 
 
+def run_faulted(cfg):
+    """A run in which the user's likelihood / prior raises at call k (every k): the reported number still equals the number
+    of points the likelihood was asked to evaluate, the failing batch included."""
+    r = Report()
+    R0 = any_run.run_any(cfg)
+    case0 = {"faulted": True, "cfg": cfg}
+    if R0.exception is not None:
+        r.case(explorer.digest(case0))
+        r.violation(f"C17/{cfg['sampler']}/run-raises/{R0.exception[0]}", R0.exception, case0)
+        return r.dump()
+    K = R0.mon.n_calls
+    for k in range(K):
+        case = dict(case0, fault_at=k)
+        if cfg["sampler"] in ("importance", "emcee", "minipcn"):
+            R = any_run.run_simple(dict(cfg, fault_at=k))
+        else:
+            R = any_run.run_any(cfg, fault_at=k)
+        r.case(explorer.digest(case), nontrivial=True)
+        rep = R.aspire.n_likelihood_evaluations
+        if rep is None:
+            continue  # the fault came before a sampler existed
+        if rep != R.mon.n_like_asked:
+            r.violation(f"C17/count/{cfg['sampler']}/after-a-failing-call", {"reported": rep, "asked": R.mon.n_like_asked, "fault_at": k}, case)
+        r.outcomes.add((cfg["sampler"], "faulted", R.mon.n_like_asked))
+    r.sample(case0)
+    return r.dump()
+
+
 def run_convert(arg):
     """Aspire.convert_to_samples(x, evaluate=True): prior first, then likelihood on the same points with the prior attached."""
     ns, given = arg
@@ -193,6 +221,10 @@ def configs(tier, seed):
     for ns in ("numpy", "torch", "jax"):
         for given in ("nothing", "prior"):
             out.append(("run_convert", (ns, given)))
+    for sampler in ("importance", "minipcn", "emcee", "smc", "emcee_smc"):
+        out.append(("run_faulted", {"sampler": sampler, "N": 8, "opts": {"adaptive": True, "target_efficiency": 0.8} if sampler in ("smc", "emcee_smc") else {},
+                                    "cadence": 1, "n_final": 12 if sampler in ("smc", "emcee_smc") else None,
+                                    "precond": "tight" if sampler != "importance" else "none", "seed": 0, "ns": "numpy"}))
     for opts in ({"adaptive": True}, {"adaptive": True, "target_efficiency": 0.9}, {"adaptive": False, "n_steps": 3},
                  {"adaptive": True, "n_final_samples": 6}):
         for sampler in ("smc", "emcee_smc"):
@@ -216,6 +248,8 @@ def replay(case):
         from checks.c06 import _fix
 
         r.merge(run_explored(_fix(case["cfg"])))
+    elif case.get("faulted"):
+        r.merge(run_faulted(case["cfg"]))
     elif case.get("convert_to_samples"):
         r.merge(run_convert((case["ns"], case["given"])))
     else:
